@@ -62,7 +62,7 @@ func plans(thorough bool) []planT {
 	// two environment deviations (flush/restart/crash/header split) per trace, or one order deviation
 	t2 := t
 	t2.Budget, t2.OrderCost = 2, 2
-	ti2 := ti
+	ti2 := t // default batches of 3 items, two environment deviations
 	ti2.Budget, ti2.OrderCost = 2, 2
 	i3 := famT{Name: "single-i3-mtb3", I: 3, MTB: 3, Pad: 1}
 	i4 := famT{Name: "single-i4-mtb2", I: 4, MTB: 2, Pad: 2}
@@ -123,7 +123,7 @@ func buildConfs(r *vk.Run, ps []planT) []*confT {
 }
 
 func TestCheck(t *testing.T) {
-	r := vk.Start("C20", "model_checking", 150*time.Second, 22*time.Minute)
+	r := vk.Start("C20", "model_checking", 170*time.Second, 22*time.Minute)
 	defer vk.CleanScratch()
 	if r.Replay != "" {
 		replay(r)
